@@ -140,6 +140,8 @@ def check_case(case, ctx=None, workdir=None, use_mp=False):
     if use_mp and workdir:
         cfg = random.Random(case["perm_seed"]).choice([[2, 0, 0], [2, 1, 0], [3, 0, 2], [1, 1, 0]])
         out = X.run_subprocess(spec, cfg, workdir, faults=faults)
+        if out["status"] == "timeout":              # a watchdog firing decides nothing: one more attempt with a long deadline
+            out = X.run_subprocess(spec, cfg, workdir, faults=faults, timeout=900)
         if out["status"] == "ok":
             note("oracle.multiproc.triple==solo")
             rows_x, _ = _rows_by_triple(out["canon"], [tuple(t) for t in out["idx"]])
